@@ -1,4 +1,5 @@
 import BoxoModel.C33.Model
+import BoxoModel.C33.NonLink
 /-! Line-protocol driver for C33.
 
   tree <node>                      → `wf=<bool> nodes=<n>`   (the harness prints the literal `wf=true`)
@@ -101,9 +102,30 @@ def parseSegs (ts : List String) : Option (List Bytes × Table) :=
       pure (s :: acc.1, (s, h) :: acc.2)
     | _ => none) ([], [])
 
+/-- `I` | `M <n> (<namehex> v)^n` | `K <cid> v` -/
+partial def parseV : List String → Option (V × List String)
+  | "I" :: r => some (.scalar, r)
+  | "K" :: c :: r => do
+    let (t, r') ← parseV r
+    pure (.link c t, r')
+  | "M" :: n :: r => do
+    let n ← n.toNat?
+    let rec go : Nat → List String → Option (List (Bytes × V) × List String)
+      | 0, r => some ([], r)
+      | k + 1, name :: r => do
+        let name ← unhex name
+        let (v, r') ← parseV r
+        let (fs, r'') ← go k r'
+        pure ((name, v) :: fs, r'')
+      | _, _ => none
+    let (fs, r') ← go n r
+    pure (.map fs, r')
+  | _ => none
+
 structure St where
   root : Option Node := none
   table : Table := []
+  croot : Option (Cid × V) := none
 
 def showRes : Res → String
   | .ok c rem => s!"ok {c} rem={rem.length}"
@@ -114,6 +136,19 @@ def step (st : St) (line : String) : St × String :=
   match (line.trimAscii.toString.splitOn " ").filter (· ≠ "") with
   | ["case", n] => ({}, s!"case {n}")
   | ["end"] => ({}, "end")
+  | "cbuild" :: _ => (st, "ok")
+  | "ctree" :: c :: ts =>
+    match parseV ts with
+    | some (v, []) => ({ st with croot := some (c, v) }, "ok")
+    | _ => (st, "bad-op")
+  | "crtl" :: ts =>
+    match st.croot, parseSegs ts with
+    | some (c, v), some (segs, _) =>
+      (st, match rtlV v c segs with
+        | .ok c' rem => s!"ok {c'} rem=" ++ "/".intercalate (rem.map toHex)
+        | .noLink n => s!"nolink {toHex n}"
+        | .err => "err")
+    | _, _ => (st, "bad-op")
   | "mode" :: _ => (st, "ok")    -- where the blocks come from (local / remote exchange): invisible to the model
   | "build" :: _ => (st, "ok")
   | "tree" :: ts =>
